@@ -375,11 +375,58 @@ unsafe extern "C" fn f_drop(p: *const Forged) {
     }
 }
 
+// a creator that hands out one handle per reference: clone_fn returns a new node, drop_fn retires exactly the node it is given
+static H_LIVE: AtomicI64 = AtomicI64::new(0);
+unsafe extern "C" fn h_clone(p: *const Forged) -> *const Forged {
+    F_CLONES.fetch_add(1, Ordering::SeqCst);
+    if p.is_null() || (*p).magic != 0xF0F0 || (*p).refs.load(Ordering::SeqCst) != 1 {
+        F_BAD.fetch_add(1, Ordering::SeqCst); // cloned through a retired handle
+    }
+    H_LIVE.fetch_add(1, Ordering::SeqCst);
+    // nodes are freed only after the whole history (a stale handle is diagnosed, not undefined behaviour)
+    let n: &'static Forged = Box::leak(Box::new(Forged { refs: AtomicI64::new(1), magic: 0xF0F0 }));
+    H_NODES.lock().unwrap().push(n as *const Forged as usize);
+    n
+}
+static H_NODES: std::sync::Mutex<Vec<usize>> = std::sync::Mutex::new(Vec::new());
+unsafe extern "C" fn h_drop(p: *const Forged) {
+    F_DROPS.fetch_add(1, Ordering::SeqCst);
+    if p.is_null() || (*p).magic != 0xF0F0 || (*p).refs.fetch_sub(1, Ordering::SeqCst) != 1 {
+        F_BAD.fetch_add(1, Ordering::SeqCst); // retired twice
+    }
+    H_LIVE.fetch_sub(1, Ordering::SeqCst);
+}
+
+/// a populated handle without a release function (a value the creator never frees, e.g. a static): dropping it must call nothing and touch nothing
+fn no_drop_fn_case(rep: &mut Report) {
+    #[repr(C)]
+    struct Guarded { before: [u64; 2], value: Forged, after: u64 }
+    let g: &'static Guarded = Box::leak(Box::new(Guarded { before: [0x5eed_0000, 0x5eed_0001], value: Forged { refs: AtomicI64::new(1), magic: 0xF0F0 }, after: 0x5eed_0002 }));
+    let (c0, d0) = (F_CLONES.load(Ordering::SeqCst), F_DROPS.load(Ordering::SeqCst));
+    let a: CArc<Forged> = unsafe { forge(CArcView { instance: &g.value as *const Forged, clone_fn: Some(f_clone), drop_fn: None }) };
+    let b = a.clone();
+    drop(a);
+    drop(b.into_opaque());
+    let (c, d) = (F_CLONES.load(Ordering::SeqCst) - c0, F_DROPS.load(Ordering::SeqCst) - d0);
+    let words = unsafe { [std::ptr::read_volatile(&g.before[0]), std::ptr::read_volatile(&g.before[1]), std::ptr::read_volatile(&g.after)] };
+    if words != [0x5eed_0000, 0x5eed_0001, 0x5eed_0002] || g.value.magic != 0xF0F0 || c != 1 || d != 0 {
+        rep.violation("C10:handle-without-drop-fn", &format!("a foreign-made handle with clone_fn but no drop_fn was cloned and dropped: clone_fn calls {} (want 1), drop_fn calls {}, words around the foreign value {:x?} (want [5eed0000, 5eed0001, 5eed0002])", c, d, words), "");
+    }
+    rep.add("no_drop_fn_cases", 1);
+    drop(unsafe { Box::from_raw(g as *const Guarded as *mut Guarded) });
+}
+
+fn rep_no_drop_once() -> bool { static ONCE: AtomicU64 = AtomicU64::new(0); ONCE.fetch_add(1, Ordering::SeqCst) % 64 == 0 }
+
 fn forged_history(rng: &mut Rng, len: usize, rep: &mut Report) {
+    let per_ref = rng.below(2) == 1;
     let cell: &'static Forged = Box::leak(Box::new(Forged { refs: AtomicI64::new(1), magic: 0xF0F0 }));
     let c0 = F_CLONES.load(Ordering::SeqCst);
     let d0 = F_DROPS.load(Ordering::SeqCst);
-    let first: CArc<Forged> = unsafe { forge(CArcView { instance: cell as *const Forged, clone_fn: Some(f_clone), drop_fn: Some(f_drop) }) };
+    let h0 = H_LIVE.load(Ordering::SeqCst);
+    if per_ref { H_LIVE.fetch_add(1, Ordering::SeqCst); }
+    let first: CArc<Forged> = if per_ref { unsafe { forge(CArcView { instance: cell as *const Forged, clone_fn: Some(h_clone), drop_fn: Some(h_drop) }) } }
+    else { unsafe { forge(CArcView { instance: cell as *const Forged, clone_fn: Some(f_clone), drop_fn: Some(f_drop) }) } };
     enum F {
         A(CArc<Forged>),
         S(CArcSome<Forged>),
@@ -451,12 +498,12 @@ fn forged_history(rng: &mut Rng, len: usize, rep: &mut Report) {
             }
         }
         let live = pool.iter().filter(|p| p.1).count() as i64;
-        let refs = cell.refs.load(Ordering::SeqCst);
+        let refs = if per_ref { H_LIVE.load(Ordering::SeqCst) - h0 } else { cell.refs.load(Ordering::SeqCst) };
         let (c, d) = (F_CLONES.load(Ordering::SeqCst) - c0, F_DROPS.load(Ordering::SeqCst) - d0);
         if c != want_clones || d != want_drops || refs != live || F_BAD.load(Ordering::SeqCst) != 0 {
             rep.violation(
                 "C10:stored-fn-pointers-not-used-exactly-once",
-                &format!("forged handle: clone_fn calls {} (want {}), drop_fn calls {} (want {}), refs {} live {} bad {} trace {:?}", c, want_clones, d, want_drops, refs, live, F_BAD.load(Ordering::SeqCst), trace),
+                &format!("forged handle ({}): clone_fn calls {} (want {}), drop_fn calls {} (want {}), refs {} live {} bad {} trace {:?}", if per_ref { "one handle per reference" } else { "shared cell" }, c, want_clones, d, want_drops, refs, live, F_BAD.load(Ordering::SeqCst), trace),
                 "",
             );
             std::mem::forget(pool);
@@ -466,11 +513,14 @@ fn forged_history(rng: &mut Rng, len: usize, rep: &mut Report) {
     let rest = pool.iter().filter(|p| p.1).count() as u64;
     drop(pool);
     let d = F_DROPS.load(Ordering::SeqCst) - d0;
-    if d != want_drops + rest || cell.refs.load(Ordering::SeqCst) != 0 {
+    let left = if per_ref { H_LIVE.load(Ordering::SeqCst) - h0 } else { cell.refs.load(Ordering::SeqCst) };
+    if d != want_drops + rest || left != 0 || F_BAD.load(Ordering::SeqCst) != 0 {
         rep.violation("C10:stored-fn-pointers-not-used-exactly-once", &format!("forged handle final: drop_fn calls {} want {}, refs {}", d, want_drops + rest, cell.refs.load(Ordering::SeqCst)), "");
     }
-    // no handle is left: release the cell itself
+    // no handle is left: release the cell itself (per-reference nodes stay leaked on purpose)
     drop(unsafe { Box::from_raw(cell as *const Forged as *mut Forged) });
+    for n in H_NODES.lock().unwrap().drain(..) { drop(unsafe { Box::from_raw(n as *mut Forged) }); }
+    if per_ref { rep.add("forged_per_reference_histories", 1); }
     rep.add("forged_ops", trace.len() as u64);
     rep.add("forged_clone_fn_calls", want_clones);
     rep.add("forged_drop_fn_calls", want_drops + rest);
@@ -755,6 +805,7 @@ pub fn run(args: &Args, rep: &mut Report) {
             let len = 1 + rng.below(60);
             forged_history(&mut rng, len, rep);
             rep.add("forged_histories", 1);
+            if rep_no_drop_once() { no_drop_fn_case(rep); }
         }
     }
     if mode == "all" || mode == "concurrent" {
